@@ -208,18 +208,18 @@ Definition e_authip (a : sx) : sx :=
   | _ => bad
   end.
 
-(* o_authip: the admitted set must be that of the LAST version *)
+(* o_authip: the allowed set must be that of the LAST version *)
 Definition o_authip (a : sx) : sx :=
   match a with
-  | SL [SL [SL versions; probes]; SL [_; _; SL admitted]] =>
-      match map_opt get_version versions, get_bl probes, get_zl (SL admitted) with
+  | SL [SL [SL versions; probes]; SL [_; _; SL allowed]] =>
+      match map_opt get_version versions, get_bl probes, get_zl (SL allowed) with
       | Some vs, Some ps, Some adm =>
           match rev vs with
           | [] => ok
           | (en, listed) :: _ =>
               let want := map (fun p => (negb en || memb (before_colon p) listed)%bool) ps in
               if sx_eqb (SL (map sbool want)) (SL (map (fun z => sbool (negb (Z.eqb z 0))) adm)) then ok
-              else viol "admitted-set-differs-from-last-whitelist-version" [SL (map sbool want)]
+              else viol "allowed-set-differs-from-last-whitelist-version" [SL (map sbool want)]
           end
       | _, _, _ => bad
       end
@@ -373,7 +373,7 @@ Definition o_cluster (a : sx) : sx :=
 
 (* ---- the event loop ----
    input ( (limit password timeout max_active) ((addr dialable) ...) ((lo hi addr) ...) (event ...) )
-   events: (0 c admitted) connect | (1 c bytes) client data | (2 ((addr k (slot ...)) ...)) run tasks
+   events: (0 c allowed) connect | (1 c bytes) client data | (2 ((addr k (slot ...)) ...)) run tasks
            (3 addr k bytes) backend data | (4 c) client close | (5 addr k) backend close | (6) timeout scan
            (7 addr k) schedule the topology probe on that connection
    backend connections are named (address, k-th connection dialled to that address) *)
@@ -456,6 +456,23 @@ Definition e_loop (a : sx) : sx :=
       | _, _ => bad
       end
   | _ => bad
+  end.
+
+(* the same histories, observed only at the end (suite pressure: peers read late, so intermediate
+   byte streams are not comparable); the stream of a closed client is blanked - it may have
+   received a prefix only *)
+Definition blank_closed (o : sx) : sx :=
+  match o with
+  | SL [SL cs; ss] =>
+      SL [SL (map (fun c => match c with
+                            | SL [cid; SN op; q; SB got; hd] => if Z.eqb op 0 then SL [cid; SN op; q; SB []; hd] else c
+                            | _ => c end) cs); ss]
+  | _ => o
+  end.
+Definition e_loopfinal (a : sx) : sx :=
+  match e_loop a with
+  | SL obs => SL [blank_closed (last obs (SL []))]
+  | other => other
   end.
 
 (* ---- spec oracles over the client decoder's observable output ---- *)
@@ -1142,6 +1159,7 @@ Definition entries : list (bytes * (sx -> sx)) :=
     (bs "o_cluster", o_cluster);
     (bs "loop", e_loop);
     (bs "o_loop", o_loop);
+    (bs "loopfinal", e_loopfinal);
     (bs "buf", e_buf);
     (bs "o_buf", o_buf);
     (bs "info", e_info);
